@@ -53,18 +53,19 @@ type xfPeer struct {
 	Cli *sftp.Client
 	SS  *peers.ScriptedServer
 
-	mu      sync.Mutex
-	file    []byte
-	exists  bool
-	open    map[string]bool
-	nextH   int
-	log     []xfReq
-	closes  int
-	opts    xfPeerOpts
-	rng     *rand.Rand
-	done    chan struct{}
+	mu       sync.Mutex
+	file     []byte
+	exists   bool
+	open     map[string]bool
+	nextH    int
+	log      []xfReq
+	closes   int
+	opts     xfPeerOpts
+	rng      *rand.Rand
+	done     chan struct{}
 	timeouts int
 	npending int
+	applied  []xfChunk // WRITE requests answered OK (their data is in the served file), in answer order
 }
 
 const xfHandleTag = "\xfeH\xff" // bytes >= 251 never occur in the data patterns
@@ -131,10 +132,43 @@ func (p *xfPeer) Reset(o xfPeerOpts) bool {
 	p.opts = o
 	p.rng = rand.New(rand.NewSource(o.PermSeed))
 	p.log = nil
+	p.applied = nil
 	p.closes = 0
 	p.timeouts = 0
 	p.mu.Unlock()
 	return true
+}
+
+// TakeApplied returns and clears the list of WRITE requests applied since the last call.
+func (p *xfPeer) TakeApplied() []xfChunk {
+	p.mu.Lock()
+	defer p.mu.Unlock()
+	a := p.applied
+	p.applied = nil
+	return a
+}
+
+// Settle waits until every request the client has written so far was answered: a STAT round trip
+// (answered in arrival order, after all earlier requests were taken off the stream), then the held ones.
+func (p *xfPeer) Settle() bool {
+	p.SetBehaviour(func(b *xfPeerOpts) { b.Window = 1 })
+	ok, _ := xfGuard(func() { p.Cli.Lstat("/f") })
+	if !ok {
+		return false
+	}
+	deadline := time.Now().Add(5 * time.Second)
+	for {
+		p.mu.Lock()
+		n := p.npending
+		p.mu.Unlock()
+		if n == 0 {
+			return true
+		}
+		if time.Now().After(deadline) {
+			return false
+		}
+		time.Sleep(50 * time.Microsecond)
+	}
 }
 
 // SetBehaviour changes window / failures between calls (the peer must be quiescent).
@@ -386,6 +420,7 @@ func (p *xfPeer) answer(q xfReq) []byte {
 			return wire.StatusFrame(q.ID, f.Code, f.Msg)
 		}
 		p.file = xfOverwrite(p.file, q.Off, q.Data)
+		p.applied = append(p.applied, xfChunk{q.Off, len(q.Data)})
 		return wire.StatusFrame(q.ID, wire.OK, "")
 	}
 	return wire.StatusFrame(q.ID, wire.OpUnsupported, "unsupported")
